@@ -6,7 +6,7 @@ From PW.proofs Require Import P_slicing_mesh P_slicing_public.
 Import ListNotations.
 
 (* with the conversion line every return path passes the assertions with float64 / int64 / int64 *)
-Lemma wrapper_dtypes_ok vdt p : wrapper_dtypes true vdt p = Ok (MkDt VF64 I64 I64).
+Lemma wrapper_dtypes_ok vdt fdt p : wrapper_dtypes true true vdt fdt p = Ok (MkDt VF64 I64 I64).
 Proof. destruct p; reflexivity. Qed.
 
 (* the path model follows the value model: it returns whenever the call does *)
@@ -20,22 +20,27 @@ Qed.
 
 (* whatever dtype the vertex array has (float64, float32, float16, integer): if the call returns, it returns float64 vertices,
    int64 faces and an int64 face mapping *)
-Theorem public_dtypes vdt vs fs ref n mask r :
+Theorem public_dtypes vdt fdt vs fs ref n mask r :
   slice_triangles_by_plane ROps vs fs ref n mask = Ok r ->
-  slice_triangles_by_plane_dtypes ROps vdt vs fs ref n mask = Ok (MkDt VF64 I64 I64).
+  slice_triangles_by_plane_dtypes ROps vdt fdt vs fs ref n mask = Ok (MkDt VF64 I64 I64).
 Proof.
   intros H. unfold slice_triangles_by_plane_dtypes. destruct (path_of_ok _ _ _ _ _ _ _ _ H) as [p ->]. cbn [rbind].
   apply wrapper_dtypes_ok.
 Qed.
 (* ... and on the domain it does return *)
-Theorem public_dtypes_total vdt vs fs ref n mask :
+Theorem public_dtypes_total vdt fdt vs fs ref n mask :
   (forall f, In f fs -> face_valid (length vs) f) -> mask_ok (length fs) mask ->
-  slice_triangles_by_plane_dtypes ROps vdt vs fs ref n mask = Ok (MkDt VF64 I64 I64).
-Proof. intros Hf Hm. destruct (slice_total vs fs ref n mask Hf Hm) as [r Hr]. exact (public_dtypes vdt _ _ _ _ _ _ Hr). Qed.
+  slice_triangles_by_plane_dtypes ROps vdt fdt vs fs ref n mask = Ok (MkDt VF64 I64 I64).
+Proof. intros Hf Hm. destruct (slice_total vs fs ref n mask Hf Hm) as [r Hr]. exact (public_dtypes vdt fdt _ _ _ _ _ _ Hr). Qed.
 
 (* what the conversion line is for: without it a float32 array comes back as float32 from the zero-vertex and the nothing-cut
    returns, and the wrapper's own assertion fails; the cut and nothing-kept returns are float64 anyway *)
 Lemma dtypes_without_conversion :
-  wrapper_dtypes false VF32 PKeptOnly = Raise AssertionError /\ wrapper_dtypes false VF32 PZeroVerts = Raise AssertionError /\
-  wrapper_dtypes false VF32 PCut = Ok (MkDt VF64 I64 I64) /\ wrapper_dtypes false VF32 PEmpty = Ok (MkDt VF64 I64 I64).
+  wrapper_dtypes false true VF32 I64 PKeptOnly = Raise AssertionError /\
+  wrapper_dtypes false true VF32 I64 PZeroVerts = Raise AssertionError /\
+  wrapper_dtypes false true VF32 I64 PCut = Ok (MkDt VF64 I64 I64) /\ wrapper_dtypes false true VF32 I64 PEmpty = Ok (MkDt VF64 I64 I64) /\
+  (* unsigned faces without the faces conversion: rejected by the bin counting on the nothing-cut return, uint64 also when cut *)
+  wrapper_dtypes true false VF64 U32 PKeptOnly = Raise ValueError /\ wrapper_dtypes true false VF64 U32 PCut = Ok (MkDt VF64 I64 I64) /\
+  wrapper_dtypes true false VF64 U64 PCut = Raise ValueError /\ wrapper_dtypes true false VF64 U64 PEmpty = Ok (MkDt VF64 I64 I64) /\
+  wrapper_dtypes true false VF64 I32 PKeptOnly = Ok (MkDt VF64 I64 I64).
 Proof. repeat split. Qed.
